@@ -31,7 +31,7 @@ CHECKS["C12"] = ("fault_enumeration", "6.C12", "Per generated rule set: store th
  "Trusted base: the simulated writer/reader, Sim E as behavioural comparator (3 fact sets per rule set), the catalog write-order hook. Rule sets are sampled; the fault positions are enumerated per rule set.", "deterministic simulation with fault injection: simulated disk, per-scenario enumeration of write failures and truncation offsets")
 
 CHECKS["C09"] = ("exploration", "6.C09", "2-4 tasks create instances from one library and execute them on their own facts; a seeded cooperative scheduler decides the interleaving at every yield point (node-id draws inside Clone, hooked loops, seam events). Oracles: instance behaves like the library's own knowledge base; per-task result independent of task order and of interleaving; reflection over the pointer graph shows no shared mutable node; blueprint structurally unchanged.",
- "Trusted base: the cooperative scheduler (real goroutines released one at a time), the reflection walker's list of mutable node types, Sim E as behavioural comparator. Interleaving granularity is seam/hook points, not instructions; data races that never change a value are outside this check.", "deterministic simulation: seeded interleaving search over cooperative tasks + pointer-graph isolation invariant")
+ "Trusted base: the cooperative scheduler (real goroutines released one at a time), the reflection walker's list of mutable node types, Sim E as behavioural comparator. Interleaving granularity is seam/hook points, not instructions; data races that never change a value are outside the simulation and are what the auxiliary arm (same task scripts on real goroutines in a -race binary, 2 000 scenarios quick / 20 000 thorough) is for.", "deterministic simulation: seeded interleaving search over cooperative tasks + pointer-graph isolation invariant")
 
 H_NOTE = "Trusted base: the history generator and its executable model (name -> text version, salience, description, tombstone), marker rules that reveal their text version, the simulated resource readers. Histories are sampled."
 CHECKS["C08"] = ("exploration", "6.C08", "Histories of 2-6 Execute / cancelled Execute / faulted Execute / FetchMatchingRules calls on one instance; every call is compared (trace, return value, matches, final facts) with the same call on an instance created at that moment.", "Differential against the engine itself on a new instance; the Sim E wrappers and generator contract.", "deterministic simulation: seeded call histories with injected faults and cancellations, differential oracle (reused vs. new instance)")
